@@ -7,6 +7,7 @@ use serde_json::Value;
 
 pub fn check(name: &str, case: &Value, v: &Violation) -> bool {
     match name {
+        "default_beyond_f64_precision" => case.get("schema").and_then(|s| s.get("default")).and_then(|d| d.as_f64()).map(|d| d.abs() >= 9007199254740992.0).unwrap_or(false),
         "enum_constrained_newtype_over_non_partialeq_type" => v.detail.contains("can't compare") && v.detail.contains(".contains(&value)"),
         "union_branches_share_prop_with_different_inline_schema" => union_branches_share_prop(case),
         "union_mixes_open_and_closed_variants" => union_mixes_open_closed(case),
